@@ -58,4 +58,39 @@ def iterCount (step : St → Out) : Nat → St → Option (St × Nat)
     | .cont s' => (iterCount step fuel s').map fun (r, k) => (r, k + 1)
     | .stuck => none
 
+/-! ### Generic variant (any state type; a labelled `break 'outer` / `return` out of a nested loop) -/
+
+/-- `St` plus one Boolean control variable (`passed` of `build_segments`) -/
+structure StF extends St where
+  flag : Bool
+deriving Repr, DecidableEq
+
+/-- `exit` = the body left not only this loop but also the enclosing one (`break 'outer`, `return`, `?`) -/
+inductive OutG (σ : Type) where
+  | brk (s : σ)
+  | cont (s : σ)
+  | exit (s : σ)
+  | stuck
+deriving Repr, DecidableEq
+
+/-- Run `step` until it breaks or exits, at most `fuel` times; the Boolean says whether it was an `exit`. -/
+def iterG {σ : Type} (step : σ → OutG σ) : Nat → σ → Option (Bool × σ)
+  | 0, _ => none
+  | fuel + 1, s =>
+    match step s with
+    | .brk s' => some (false, s')
+    | .exit s' => some (true, s')
+    | .cont s' => iterG step fuel s'
+    | .stuck => none
+
+/-- `iterG` with the number of body executions -/
+def iterGCount {σ : Type} (step : σ → OutG σ) : Nat → σ → Option (Bool × σ × Nat)
+  | 0, _ => none
+  | fuel + 1, s =>
+    match step s with
+    | .brk s' => some (false, s', 1)
+    | .exit s' => some (true, s', 1)
+    | .cont s' => (iterGCount step fuel s').map fun (e, r, k) => (e, r, k + 1)
+    | .stuck => none
+
 end FontVerif.LoopIter
